@@ -3,10 +3,14 @@
 //   CRUN <planner> <space> <env> <query> <objective length|integral|clearance> <threshold factor|0> <seed> <seconds> <nsolves>
 // output per solve:  SOLVE k status nsolutions
 //   SOL i approx diff optimized hasopt stored true length lower satisfied   (costs in 1e-9 units; lower = admissible lower bound of the true cost)
+//   PTS i n dim : reals of every path state (bit patterns)     SC i : stateCost of every path state
+//   MM i : per motion the state costs MinimaxObjective::motionCost evaluated, in order (motions separated by ';')
+//   TRUE i : bit patterns of pg->cost(obj) and pg->length()
 #include "planning_common.h"
 #include "planners_all.h"
 #include <ompl/base/objectives/StateCostIntegralObjective.h>
 #include <ompl/base/objectives/MaximizeMinClearanceObjective.h>
+#include <cstring>
 
 class HeightCost : public ob::StateCostIntegralObjective
 {
@@ -26,6 +30,15 @@ public:
         for (auto &c : env_.circles) best = std::min(best, std::hypot(x - c[0], y - c[1]) - c[2]);
         return best;
     }
+};
+static void pbits(std::ostream &o, double d) { unsigned long long b; std::memcpy(&b, &d, 8); char buf[20]; std::snprintf(buf, sizeof buf, " %016llx", b); o << buf; }
+// logs every stateCost() evaluation of the clearance objective while switched on
+static std::vector<double> *g_evlog = nullptr;
+class LoggingClearance : public ob::MaximizeMinClearanceObjective
+{
+public:
+    using ob::MaximizeMinClearanceObjective::MaximizeMinClearanceObjective;
+    ob::Cost stateCost(const ob::State *s) const override { ob::Cost c = ob::MaximizeMinClearanceObjective::stateCost(s); if (g_evlog) g_evlog->push_back(c.value()); return c; }
 };
 static long long e9(double v) { if (!std::isfinite(v)) return v > 0 ? 4000000000000000000LL : -4000000000000000000LL; return std::llround(std::max(std::min(v, 4e9), -4e9) * 1e9); }
 int main(int argc, char **argv)
@@ -48,7 +61,7 @@ int main(int argc, char **argv)
             ob::OptimizationObjectivePtr obj; int kind = 1;
             if (objn == "length") obj = std::make_shared<ob::PathLengthOptimizationObjective>(w.si);
             else if (objn == "integral") obj = std::make_shared<HeightCost>(w.si);
-            else { obj = std::make_shared<ob::MaximizeMinClearanceObjective>(w.si); kind = 2; }
+            else { obj = std::make_shared<LoggingClearance>(w.si); kind = 2; }
             double direct = w.space->distance(s0, g0);
             if (thrf > 0) obj->setCostThreshold(ob::Cost(kind == 2 ? 0.02 * thrf : direct * thrf * (objn == "integral" ? 6.0 : 1.0)));
             pdef->setOptimizationObjective(obj);
@@ -67,6 +80,19 @@ int main(int argc, char **argv)
                     bool hasopt = static_cast<bool>(s.opt_);
                     std::cout << "SOL " << i << " " << (s.approximate_ ? 1 : 0) << " " << e9(s.difference_) << " " << (s.optimized_ ? 1 : 0) << " " << (hasopt ? 1 : 0) << " " << e9(hasopt ? s.cost_.value() : 0.0)
                               << " " << e9(truec) << " " << e9(len) << " " << e9(lower) << " " << ((hasopt && obj->isSatisfied(s.cost_)) ? 1 : 0) << " " << s.plannerName_ << "\n";
+                    // the path itself, for the independent re-computation of its cost by the model
+                    std::vector<double> r; std::cout << "PTS " << i << " " << pg->getStateCount() << " " << w.space->getDimension() << " :";
+                    for (std::size_t k2 = 0; k2 < pg->getStateCount(); ++k2) { w.space->copyToReals(r, pg->getState(k2)); for (double v : r) pbits(std::cout, v); }
+                    std::cout << "\nSC " << i << " :"; for (std::size_t k2 = 0; k2 < pg->getStateCount(); ++k2) pbits(std::cout, obj->stateCost(pg->getState(k2)).value());
+                    std::cout << "\n";
+                    if (kind == 2)
+                    {
+                        std::cout << "MM " << i << " :";
+                        for (std::size_t k2 = 0; k2 + 1 < pg->getStateCount(); ++k2)
+                        { std::vector<double> ev; g_evlog = &ev; obj->motionCost(pg->getState(k2), pg->getState(k2 + 1)); g_evlog = nullptr; for (double v : ev) pbits(std::cout, v); std::cout << " ;"; }
+                        std::cout << "\n";
+                    }
+                    std::cout << "TRUE " << i << " :"; pbits(std::cout, truec); pbits(std::cout, len); std::cout << "\n";
                 }
             }
             std::cout << "END" << std::endl;
